@@ -29,6 +29,8 @@ def jsonable(x):
         return [jsonable(v) for v in x]
     if isinstance(x, dict):
         return {str(k): jsonable(v) for k, v in x.items()}
+    if isinstance(x, int) and not isinstance(x, bool) and x.bit_length() > 12000:
+        return '<int of %d bits, mod 2^61-1 = %d>' % (x.bit_length(), x % ((1 << 61) - 1))          # beyond the interpreter's int->str digit limit
     if isinstance(x, (int, str, bool)) or x is None:
         return x
     if isinstance(x, float):
